@@ -203,7 +203,8 @@ def runInj (ws : List String) : String :=
 
 structure CertDesc where
   ca : Nat
-  timeValid : Bool
+  timeValid : Int → Bool                -- valid at the given time (v/e/f: fixed answer)
+  window : Option (Int × Int)
   server : Bool
   names : Usual.C08.Cert
 
@@ -223,10 +224,22 @@ def parseCert (w : String) : Option CertDesc :=
   | [ca, t, k, cn, sans] =>
     match ca.toNat?, parseStr cn with
     | some ca, some cn =>
-      if ca > 2 || !(t == "v" || t == "e" || t == "f") || !(k == "s" || k == "c") then none else
+      let win : Option (Int × Int) :=
+        if t.startsWith "w" then
+          match (t.drop 1).toString.splitOn "_" with
+          | [a, b] => match a.toInt?, b.toInt? with
+            | some x, some y =>
+              if -2000000000 ≤ x ∧ x ≤ 253402300799 ∧ -2000000000 ≤ y ∧ y ≤ 253402300799 then some (x, y) else none
+            | _, _ => none
+          | _ => none
+        else none
+      if ca > 2 || !(t == "v" || t == "e" || t == "f" || win.isSome) || !(k == "s" || k == "c") then none else
       let sl := if sans == "-" || sans == "" then some [] else parseSans (sans.splitOn ",")
       match sl with
-      | some sl => some ⟨ca, t == "v", k == "s", ⟨sl, match cn with | some c => [c] | none => []⟩⟩
+      | some sl => some ⟨ca, (match win with
+                              | some (nb, na) => fun now => validAt now nb na
+                              | none => fun _ => t == "v"), win, k == "s",
+                         ⟨sl, match cn with | some c => [c] | none => []⟩⟩
       | none => none
     | _, _ => none
   | _ => none
@@ -289,6 +302,13 @@ def runHs (ws : List String) : String :=
         | some "g" => some true | some "c" => some false | _ => none
       match scert, ccert, host, strict with
       | some sc, some cc, some host, some strict =>
+        let needNow := sc.window.isSome || (match cc with | some c => c.window.isSome | none => false)
+        let nowO : Option Int := match kvGet kv "now" with
+          | some v => v.toInt?
+          | none => if needNow then none else some 0
+        match nowO with
+        | none => "bad-op"
+        | some now =>
         let covered := match host with
           | some h => Usual.C08.checkName (Usual.C08.ipLit strict) sc.names h == .ok
           | none => false
@@ -327,8 +347,8 @@ def runHs (ws : List String) : String :=
         let trusts (x : Option SslCtx) (ca : Nat) : Bool := match x with
           | some k => k.caFile == some [UInt8.ofNat ca] && ca != 0
           | none => false
-        (match Policy.ofCtxs tc ts host.isSome ⟨trusts tc.sslCtx sc.ca && sc.server, sc.timeValid⟩ covered
-                (cc.map fun c => ⟨trusts ts.sslCtx c.ca && !c.server, c.timeValid⟩),
+        (match Policy.ofCtxs tc ts host.isSome ⟨trusts tc.sslCtx sc.ca && sc.server, sc.timeValid now⟩ covered
+                (cc.map fun c => ⟨trusts ts.sslCtx c.ca && !c.server, c.timeValid now⟩),
               tc.sslCtx, ts.sslCtx with
         | some p, some cctx, some sctx =>
         let pb := verBits perm
@@ -341,9 +361,13 @@ def runHs (ws : List String) : String :=
           let h1 := hashStream n (s ^^^ 0xC2500000C2500000) 0 0 0xcbf29ce484222325
           let h2 := hashStream n (s ^^^ 0x52C0000052C00000) 0 0 0xcbf29ce484222325
           let tail := if cut == 0 then "eof=0 close=0,0 cut=-" else "eof=- close=-,- cut=err"
-          s!"est=1 ver={ver} rvs=ok want=ok data=ok h={hex16 h1},{hex16 h2} {tail} after=ok"
+          let pt1 := match sc.window with | some (a, b) => s!"{a},{b}" | none => "-"
+          let pt2 := match cc with
+            | some c => (match c.window with | some (a, b) => if svc != 0 then s!"{a},{b}" else "-" | none => "-")
+            | none => "-"
+          s!"est=1 ver={ver} rvs=ok want=ok data=ok h={hex16 h1},{hex16 h2} {tail} pt={pt1}/{pt2} after=ok"
         -- refused: every later I/O call on the refused context fails again, nothing crosses (`refused_stays_refused`)
-        else "est=0 ver=- rvs=ok want=ok data=- h=-,- eof=- close=-,- cut=- after=ok"
+        else "est=0 ver=- rvs=ok want=ok data=- h=-,- eof=- close=-,- cut=- pt=- after=ok"
         | _, _, _ => "bad-op")
         | _, _, _, _, _, _, _, _, _, _, _, _ => "bad-op"
       | _, _, _, _ => "bad-op"
